@@ -135,7 +135,11 @@ def build(case):
 
 def build_numarr(case, rng):
     n = case["n"]
-    items = [{"id": i, "alias": "na_%c" % chr(97 + i), "subvar_id": "S%d" % (i + 1), "name": "Num %d" % i,
+    # sub-variable ids in NON-ascending payload order (distinct random strings): the dimension must keep payload order
+    svids = rng.sample(["0001", "0002", "0003", "0004", "0009", "000a", "S1", "S2", "b7", "a3"], n)
+    if svids == sorted(svids):
+        svids = svids[::-1] if n > 1 else svids
+    items = [{"id": i, "alias": "na_%c" % chr(97 + i), "subvar_id": svids[i], "name": "Num %d" % i,
               "anchor": False, "derived": False} for i in range(n)]
     cvar = gen.gen_var(rng, "cat", "g", n=rng.randint(2, 3), allow_missing=False)
     nc = len(cvar.cats)
